@@ -124,7 +124,16 @@ func (d *Deb) Package(info *nfpm.Info, deb io.Writer) (err error) { // nolint: f
 
 	debianBinary := []byte("2.0\n")
 
-	w := ar.NewWriter(deb)
+	// the ar writer drops the error of the padding byte it writes after an
+	// odd-sized member: remember the first write error ourselves
+	sink := &stickyErrWriter{w: deb}
+	defer func() {
+		if err == nil {
+			err = sink.err
+		}
+	}()
+
+	w := ar.NewWriter(sink)
 	if err := w.WriteGlobalHeader(); err != nil {
 		return fmt.Errorf("cannot write ar header to deb file: %w", err)
 	}
@@ -157,6 +166,20 @@ func (d *Deb) Package(info *nfpm.Info, deb io.Writer) (err error) { // nolint: f
 	}
 
 	return nil
+}
+
+// stickyErrWriter remembers the first error returned by the wrapped writer.
+type stickyErrWriter struct {
+	w   io.Writer
+	err error
+}
+
+func (s *stickyErrWriter) Write(p []byte) (int, error) {
+	n, err := s.w.Write(p)
+	if err != nil && s.err == nil {
+		s.err = err
+	}
+	return n, err
 }
 
 func doSign(info *nfpm.Info, debianBinary, controlTarGz, dataTarball []byte) ([]byte, string, error) {
